@@ -160,3 +160,4 @@ Definition run_remoting (t : tm) : tm :=
 
 Definition run_frame := run_remoting.
 Definition run_link := run_remoting.
+Definition run_transparency := run_remoting.
